@@ -41,3 +41,50 @@ Example C07_nonvacuous :
   cb_fifo [0x10;0x20;0x30;0x85; 0x01;0x00;0x80;0xFF; 0x3C;0;0;0xFE; 1;2;3] =
   ([TS 5 false 0x302010; MK true 1], [0x3C;0;0;0xFE; 1;2;3]).
 Proof. vm_compute. reflexivity. Qed.
+
+(* ===== combinator layer: pins imported from Codec/ChronoWinnow_pins.v =====
+   chronobox_fifo transcribed combinator by combinator (Codec/ChronoWinnow.v) over the winnow 0.6.1 semantics
+   (Codec/Winnow.v: checkpoint/reset, Backtrack vs Cut, the "must consume" assert) equals cb_fifo, so every
+   theorem above is a theorem about the combinator-level parser. *)
+From AG Require Import Codec.Winnow Codec.ChronoWinnow Codec.ChronoWinnow_proofs.
+
+(* combinator-level parser = recursive parser, for every input, with fuel = length + 1, in debug and release *)
+Theorem C07_cbw_fifo_eq : forall dbg l,
+  chronobox_fifo_winnow dbg l = POk (fst (cb_fifo l)) (snd (cb_fifo l)).
+Proof. exact cbw_fifo_eq. Qed.
+Print Assumptions C07_cbw_fifo_eq.
+
+(* fuel = length + 1 is sufficient: any larger fuel gives the same outcome *)
+Theorem C07_cbw_fuel_enough : forall dbg fuel l, (length l < fuel)%nat ->
+  chronobox_fifo_fuel dbg fuel l = chronobox_fifo_winnow dbg l.
+Proof. exact cbw_fuel_enough. Qed.
+Print Assumptions C07_cbw_fuel_enough.
+
+(* the resume protocol over the combinator-level parser = cb_feed *)
+Theorem C07_cbw_feed_eq : forall dbg pieces rem,
+  cbw_feed dbg rem pieces = POk (fst (cb_feed rem pieces)) (snd (cb_feed rem pieces)).
+Proof. exact cbw_feed_eq. Qed.
+Print Assumptions C07_cbw_feed_eq.
+
+(* every element parser that succeeds consumes exactly 4 bytes (entry) / 244 bytes (separator), so the
+   "`repeat` parsers must always consume" assertions of repeat0_ and separated_foldl1 cannot fire *)
+Theorem C07_cbw_entry_consumes : forall l e r, fifo_entry l = POk e r -> exists p, l = p ++ r /\ lenN p = 4.
+Proof. exact fifo_entry_consumes. Qed.
+Print Assumptions C07_cbw_entry_consumes.
+
+Theorem C07_cbw_scalers_consumes : forall l u r,
+  scalers_block l = POk u r -> exists p, l = p ++ r /\ lenN p = 244.
+Proof. exact scalers_block_consumes. Qed.
+Print Assumptions C07_cbw_scalers_consumes.
+
+(* the combinator semantics is not vacuous: reset after a failed branch, a non-consuming element trips the
+   assert (panic in debug, Cut in release), and the running example of Props/C07.v *)
+Example C07_cbw_nonvacuous :
+  chronobox_fifo_winnow true [0x10;0x20;0x30;0x85; 0x01;0x00;0x80;0xFF; 0x3C;0;0;0xFE; 1;2;3] =
+  POk [TS 5 false 0x302010; MK true 1] [0x3C;0;0;0xFE; 1;2;3].
+Proof. vm_compute. reflexivity. Qed.
+Example C07_cbw_failed_entry_leaves_stream_advanced : fifo_entry [1; 2; 3; 0x7F; 9] = PBack [0x7F; 9].
+Proof. vm_compute. reflexivity. Qed.
+Example C07_cbw_assert_sites :
+  repeat0 true 5 empty [1; 2] = PPanic /\ repeat0 false 5 empty [1; 2] = PCut [1; 2].
+Proof. split; vm_compute; reflexivity. Qed.
